@@ -58,10 +58,9 @@ def main():
                 sh("git checkout -q -- . && git clean -fdq", cwd=wr)
                 sh("/venv/bin/python tools/regen.py", cwd=wv, env=env)
             lines = [l for l in out.split("\n") if l.strip()]
-            tail = lines[-8:]
-            viol = [l for l in tail if l.startswith("VIOLATION")]
-            fi = [l for l in tail if l.startswith("failing input")]
-            ties = [l for l in tail if l.startswith("broken ties")]
+            viol = [l for l in lines if l.startswith("VIOLATION")]
+            fi = [l for l in lines if l.startswith("failing input")]
+            ties = [l for l in lines if l.startswith("broken ties")]
             ev = dict(tier=tier, exit_code=rc, detected=bool(viol) and rc == 1,
                       failing_input_found=bool(fi) and not any("no-failing-input-found" in l for l in viol),
                       broken=ties[0] if ties else None, failing_input=fi[0] if fi else None, wall_s=round(time.time() - t0, 1),
